@@ -100,10 +100,25 @@ def magic_authenticator(sock):
     return sock, "authenticated"
 
 
+def _die_with_parent():
+    """Linux: deliver SIGKILL to this process when its parent dies (no orphans holding sockets or pipes)"""
+    try:
+        import ctypes
+        import signal
+        ctypes.CDLL("libc.so.6", use_errno=True).prctl(1, signal.SIGKILL)
+    except Exception:
+        pass
+
+
 def _forking_main(conn_pipe, kind_kwargs, auth, socket_path):
     """runs in a helper process: ForkingServer installs a signal handler, so its main thread constructs it"""
     import rpyc
     from rpyc.utils.server import ForkingServer
+    _die_with_parent()
+    # neither this helper nor the children it forks may keep the harness's output pipes open
+    devnull = os.open(os.devnull, os.O_RDWR)
+    os.dup2(devnull, 1)
+    os.dup2(devnull, 2)
     events = []
     Svc = make_service(events)
     kw = dict(logger=_quiet, auto_register=False, authenticator=magic_authenticator if auth else None, listener_timeout=0.05)
@@ -124,16 +139,20 @@ def _forking_main(conn_pipe, kind_kwargs, auth, socket_path):
             except EOFError:
                 os._exit(0)
             if msg == "close":
-                srv.active = False          # start() leaves its loop and runs close() in the main thread
-                if socket_path:
-                    # a unix listener has no accept timeout: wake the blocked accept() with a throw-away connection
-                    try:
-                        w = socket.socket(socket.AF_UNIX, socket.SOCK_STREAM)
-                        w.settimeout(1.0)
-                        w.connect(socket_path)
-                        w.close()
-                    except (socket.error, OSError):
-                        pass
+                # start() leaves its loop and runs close() in the main thread; repeat until it has (start() may not
+                # even have been entered yet and would switch the flag back on; a unix listener has no accept
+                # timeout and is woken with a throw-away connection)
+                while state["phase"] == "serving":
+                    srv.active = False
+                    if socket_path:
+                        try:
+                            w = socket.socket(socket.AF_UNIX, socket.SOCK_STREAM)
+                            w.settimeout(0.5)
+                            w.connect(socket_path)
+                            w.close()
+                        except (socket.error, OSError):
+                            pass
+                    time.sleep(0.05)
                 return
             elif msg == "alive":
                 conn_pipe.send(("alive", srv.active))
@@ -144,6 +163,7 @@ def _forking_main(conn_pipe, kind_kwargs, auth, socket_path):
     t.start()
     try:
         srv.start()                          # returns after close()
+        state["phase"] = "closed"
         conn_pipe.send(("closed", None))
         while True:
             try:
